@@ -94,4 +94,35 @@ SpecSamplerZ(mu, sigma, sigmin, bytes) ==
                 ELSE IF be.res THEN [done |-> TRUE, ok |-> TRUE, value |-> z + sInt, iters |-> k, used |-> 17 * k]
                 ELSE [st EXCEPT !.iters = k, !.used = 17 * k]
   IN FoldRange(iter, [done |-> FALSE, ok |-> TRUE, value |-> 0, iters |-> 0, used |-> 0], 1, Len(bytes) \div 17)
+
+\* one loop iteration's float glue as a function of its inputs: the Bernoulli parameter x and the scaling ccs
+SpecIterGlue(mu, sigma, sigmin, z0, b) ==
+  LET isigma == FDiv(FOne, sigma)
+      dss == FMul(FMul(FHalf, isigma), isigma)
+      fl == FFloorBig(mu)
+      sInt == IF fl.neg THEN -BToSmall(fl.mag) ELSE BToSmall(fl.mag)
+      r == FSub(mu, FFromInt(sInt))
+      z == b + (2 * b - 1) * z0
+      zmr == FSub(FFromInt(z), r)
+  IN [x |-> FSub(FMul(FMul(zmr, zmr), dss), FMul(FFromInt(z0 * z0), SigmaMaxInv2)), ccs |-> FMul(sigmin, isigma), z |-> z, s |-> sInt]
+
+\* gen_poly of key generation (Algorithm 5, lines 2-3 as falcon-rust implements them): n coefficients, each the sum of
+\* 4096/n consecutive outputs of SamplerZ(0, sigma*, sigma* - 0.001) on one byte stream.
+\* Returns [ok, done, out, used]; done = FALSE if the stream prefix is exhausted first.
+SigmaStar == FFromWords(<<16374, 60827, 45192, 60952>>)          \* 1.43300980528773
+SigmaStarMin == FFromWords(<<16374, 59779, 7444, 12718>>)        \* 1.43300980528773 - 0.001
+SpecGenPoly(n, bytes) ==
+  LET per == 4096 \div n
+      L == Len(bytes)
+      step(st, k) ==
+        IF ~st.done \/ ~st.ok THEN st
+        ELSE LET hi == IF st.used + 17 * 48 < L THEN st.used + 17 * 48 ELSE L       \* a window of 48 iterations per sample
+                 r == SpecSamplerZ(FZero(0), SigmaStar, SigmaStarMin, SubSeq(bytes, st.used + 1, hi))
+                 sum == st.acc + r.value
+             IN IF ~r.ok THEN [st EXCEPT !.ok = FALSE]
+                ELSE IF ~r.done THEN [st EXCEPT !.done = FALSE]
+                ELSE [ok |-> TRUE, done |-> TRUE, used |-> st.used + r.used,
+                      out |-> IF k % per = 0 THEN Append(st.out, sum) ELSE st.out,
+                      acc |-> IF k % per = 0 THEN 0 ELSE sum]
+  IN FoldRange(step, [ok |-> TRUE, done |-> TRUE, out |-> <<>>, acc |-> 0, used |-> 0], 1, 4096)
 =====================================================================
